@@ -764,6 +764,20 @@ func (h *handler) scenarioScript(ci *connInfo, cb string) {
 		if cb == "traffic" {
 			h.doCall(ci, "next", -1, nil, false)
 		}
+	case "data-with-fin-unix-lt", "data-with-fin-unix-et", "data-with-fin-tcp-lt", "data-with-fin-tcp-et":
+		if cb == "traffic" {
+			h.doCall(ci, "next", -1, nil, false)
+			if ci.cid == 0 && ci.traffic == 2 {
+				select {
+				case h.inTraffic <- struct{}{}:
+				default:
+				}
+				select {
+				case <-h.release:
+				case <-time.After(3 * time.Second):
+				}
+			}
+		}
 	case "async-flood":
 		if cb == "traffic" && ci.traffic == 1 {
 			h.doCall(ci, "next", -1, nil, false)
